@@ -408,6 +408,9 @@ package ops
 //@ func createNewBacking
 //@   tags C11,C02
 //@   ensures same_length: len(result) == len(backing) && (result == nil || fresh(result))
+//@   ensures each_converted: forall k :: 0 <= k && k < len(backing) ==> result[k] == goconv(backing[k], "R")
+//@   loop 1 invariant len(newBacking) == len(backing) && fresh(newBacking)
+//@   loop 1 invariant forall k :: 0 <= k && k < $i ==> newBacking[k] == goconv(backing[k], "R")
 
 //@ spec cast_supported(to int32) bool = to == 1 || to == 11 || to == 3 || to == 5 || to == 6 || to == 7 || to == 2 || to == 4 || to == 12 || to == 13
 //@ spec cast_source(d dtype) bool = d == Float32 || d == Float64 || d == Int8 || d == Int16 || d == Int32 || d == Int64 || d == Uint8 || d == Uint16 || d == Uint32 || d == Uint64
